@@ -25,6 +25,10 @@ pub struct ChunkDeserializer {
     current_payload_data: BytesMut,
     buffer: BytesMut,
     previous_headers: HashMap<u32, ChunkHeader>,
+
+    // What has arrived so far of the messages that are still incomplete, per chunk stream id.
+    // Chunks of different chunk streams can be interleaved, so each needs its own.
+    incomplete_payloads: HashMap<u32, BytesMut>,
 }
 
 enum ParsedValue<T> {
@@ -61,6 +65,7 @@ impl ChunkDeserializer {
             current_stage: ParseStage::Csid,
             buffer: BytesMut::with_capacity(4096),
             previous_headers: HashMap::new(),
+            incomplete_payloads: HashMap::new(),
             current_payload: MessagePayload::new(),
             current_payload_data: BytesMut::new(),
         }
@@ -219,6 +224,12 @@ impl ChunkDeserializer {
                 Some(header) => header,
             },
         };
+
+        // Continue the message this chunk stream is in the middle of, if there is one
+        self.current_payload_data = self
+            .incomplete_payloads
+            .remove(&csid)
+            .unwrap_or_else(BytesMut::new);
 
         let _ = self.buffer.split_to(next_index as usize);
         self.current_stage = ParseStage::InitialTimestamp;
@@ -398,6 +409,12 @@ impl ChunkDeserializer {
 
             let payload = mem::replace(&mut self.current_payload, MessagePayload::new());
             *message_to_return = Some(payload)
+        } else {
+            // The rest arrives in later chunks of this chunk stream; chunks of other chunk
+            // streams may come in between.
+            let partial = mem::replace(&mut self.current_payload_data, BytesMut::new());
+            self.incomplete_payloads
+                .insert(self.current_header.chunk_stream_id, partial);
         }
 
         // This completes the current chunk, so cycle the header into the map and start a new one
